@@ -1244,6 +1244,43 @@ func fqdnTrailingRun(c *Ctx, r *Report, rule string) {
 		}
 		r.check(fromEnd && !whole, rule, fmt.Sprintf("IsFqdn:parity#%d", n), c.pos(rem.Pos()), "run before the final dot", "the parity tested is not that of the backslash run directly before the final dot (scan from the end: %v, count over the whole name: %v): a backslash elsewhere in the name flips the verdict, `a\\\\.b\\\\.` is taken for fully qualified and packed without its last label", fromEnd, whole)
 	})
+	// the parity kept as a flag that is flipped once per backslash of the run
+	allInstrs(fn, func(in ssa.Instruction) {
+		flag, ok := in.(*ssa.Phi)
+		if !ok {
+			return
+		}
+		flips := false
+		for i, e := range flag.Edges {
+			if !flag.Block().Dominates(flag.Block().Preds[i]) {
+				continue
+			}
+			if u, isU := e.(*ssa.UnOp); isU && u.Op == token.NOT && u.X == ssa.Value(flag) {
+				flips = true
+			}
+		}
+		if !flips {
+			return
+		}
+		n++
+		fromEnd := false
+		for _, in2 := range flag.Block().Instrs {
+			if p2, ok := in2.(*ssa.Phi); ok && p2 != flag {
+				for _, e2 := range p2.Edges {
+					if b2, ok := e2.(*ssa.BinOp); ok && b2.X == ssa.Value(p2) && b2.Op == token.SUB {
+						fromEnd = true
+					}
+				}
+			}
+		}
+		decides := false
+		for _, rp := range returnPoints(fn, 0) {
+			if sliceOf(rp.Results[0])[flag] {
+				decides = true
+			}
+		}
+		r.check(fromEnd && decides, rule, fmt.Sprintf("IsFqdn:parity#%d", n), c.pos(flag.Pos()), "run before the final dot", "the parity flag is not flipped along a scan back from the end, or does not decide the result (scan from the end: %v, decides the result: %v)", fromEnd, decides)
+	})
 	if n == 0 {
 		r.undecided(rule, "IsFqdn", c.pos(fn.Pos()), "no parity test found")
 	}
